@@ -81,11 +81,14 @@ def _ends_in_open_token(data):
 _LONG_TAIL = re.compile(rb';[ \t]*--[^\n]{253,}')
 _BARE_REPEAT = re.compile(rb'\bREPEAT\s*;', re.I)
 _AS_RENAME = re.compile(rb'\b(?:USE|REFERENCE)\s+FROM\b[^;]*\bAS\b', re.I)
-_NEST_KW = re.compile(rb'\b(?:FUNCTION|PROCEDURE|QUERY|REPEAT|ALIAS|RULE)\b', re.I)
+_SUPER_SELF = re.compile(rb'\bSUPERTYPE\s+OF\s*\([^;]*\bSELF\b', re.I)
+_UNIQUE_QUAL = re.compile(rb'\bUNIQUE\b(?:(?!END_ENTITY)[^\\])*\\[^;]*;\s*(?!END_ENTITY|WHERE)\S', re.I)
 
 MASKS = (
     ('token cut by end of file', lambda d, tool: _ends_in_open_token(d)),
     ('tail remark of 255 chars or more x after semicolon', lambda d, tool: bool(_LONG_TAIL.search(d))),
+    ('SELF in a SUPERTYPE OF expression', lambda d, tool: bool(_SUPER_SELF.search(d))),
+    ('UNIQUE rule on SELF\\super.attr followed by a plain attribute rule', lambda d, tool: bool(_UNIQUE_QUAL.search(d))),
     ('REPEAT without control (exp2python)', lambda d, tool: tool == 'exp2python' and bool(_BARE_REPEAT.search(d))),
     ('interface item renamed with AS (exp2python)', lambda d, tool: tool == 'exp2python' and bool(_AS_RENAME.search(d))),
 )
